@@ -1,33 +1,45 @@
-"""Drive the real qs job-queue server (qs.jobs.workq + qs.qserve.QPlugin) with real gevent, one
-abstract operation at a time, and project its state onto the variables of spec/WorkQ.tla.
+"""Drive the REAL qs job-queue server - qs.rpcserver.Server.handle_client + qs.qserve.QPlugin +
+qs.jobs.workq - under real gevent, one abstract operation at a time, and project its state onto
+the variables of spec/WorkQ.tla.
 
-No code of the server is re-implemented: a connection is a QPlugin instance plus one greenlet
-that behaves like rpcserver.handle_client's client greenlet (runs rpc_qpull, then parks; a
-GreenletExit anywhere runs plugin.shutdown() like handle_client's `finally`).  Seams used:
-qs.jobs.time (model clock), qs.jobs.random (the choice among eligible blocked pullers).
+Nothing of the server is re-implemented.  A connection is a ClientGreenlet running the real
+`Server.handle_client(sock, addr)` on a fake socket whose `readline()` blocks on a gevent queue
+(EOF = the empty line).  Requests are the JSON lines of the RPC protocol.  The request handler is
+the same kind of subclass `qserve.Main.run` builds (RequestHandler + QPlugin with `workq` bound),
+wrapped only to *observe*: it records one event per atomic step with the projected state.
+Seams used: qs.jobs.time (model clock), qs.jobs.random (choice among eligible blocked pullers).
 
-Atomicity: gevent's hub runs callbacks FIFO.  A *batch* of operations is submitted by spawning
-one greenlet per operation, in order, followed by one gevent.sleep(0): the hub starts them back
-to back and every wake-up they cause queues up behind the driver's own resumption.  `drain()`
-then lets the loop run until nothing changes; every resumption / kill delivery records its own
-event with the state right after it.
+Atomicity.  gevent's hub runs callbacks FIFO.  A request needs two hops (reader greenlet ->
+client greenlet).  A *batch* of operations is submitted at once; all their dispatches run back to
+back, in submission order, before any wake-up they cause (those callbacks queue up behind).
+`drain()` then lets the loop run until nothing changes; every resumption of a blocked puller /
+kill delivery / client release records its own event.  A batch boundary therefore always is a
+run of the event loop.
 """
+import collections
+import io
+import json
+import logging
 import pickle
 import sys
 
 import gevent
-from gevent import event as gevent_event
-
-import logging
+import gevent.queue
 
 import qs.jobs
 import qs.log
 import qs.qserve
+import qs.rpcserver
 
 qs.log.root_logger.setLevel(logging.CRITICAL)
 logging.getLogger("qserve").setLevel(logging.CRITICAL)
 
 CHANNELS = ["c1", "c2"]
+N_ADMIN = 12
+
+
+class BatchTooLong(Exception):
+    """more admin requests in one batch than pooled admin connections"""
 
 
 class Clock:
@@ -47,24 +59,55 @@ class Chooser:
     def choice(self, alts):
         d = self.driver
         job = sys._getframe(1).f_locals.get("job")
-        workers = []
-        for ev in alts:
-            w = d.worker_of_ev(ev)
-            workers.append(w)
+        workers = [d.worker_of_ev(ev) for ev in alts]
         pick = d.policy(job.serial if job is not None else None, workers)
-        d.choices.append({"serial": getattr(job, "serial", None), "among": workers, "picked": pick})
         return alts[workers.index(pick)]
 
 
+class FakeSock:
+    """socket + its makefile("rw") in one object."""
+
+    def __init__(self):
+        self.q = gevent.queue.Queue()
+        self.out = []
+        self.closed = False
+
+    def makefile(self, mode):
+        return self
+
+    def readline(self):
+        return self.q.get()
+
+    def write(self, s):
+        self.out.append(s)
+
+    def flush(self):
+        pass
+
+    def close(self):
+        self.closed = True
+
+
 class Conn:
-    def __init__(self, name):
+    def __init__(self, name, idx):
         self.name = name
-        self.plugin = None
+        self.idx = idx
+        self.sock = None
         self.greenlet = None
-        self.token = 0
-        self.chs_obj = None       # identity of the channel list passed to pop (finds our waiter entry)
-        self.state = "idle"       # driver's view: idle | blocked | closing | closed
-        self.park = None
+        self.handler = None
+        self.state = "idle"            # idle | blocked | closing | closed   (driver's view)
+        self.submitted = collections.deque()
+        self.eof_sent = False
+        self.in_pull = False
+        self.in_wait = False
+        self.resumed_ev = None
+        self.waiting = 0               # clients: serial waited for
+        self.disc_recorded = False
+        self.disc_seq = None
+
+    @property
+    def plugin(self):
+        return self.handler
 
 
 class Driver:
@@ -72,54 +115,133 @@ class Driver:
         self.result_hook = result_hook or (lambda op: "r")
         self.clock = Clock(1)
         qs.jobs.time = self.clock
-        self.chooser = Chooser(self)
-        qs.jobs.random = self.chooser
+        qs.jobs.random = Chooser(self)
         self.policy = policy or (lambda serial, workers: workers[0])
         self.channels = list(channels)
         self.workers = list(workers)
         self.clients = list(clients)
         self.db = qs.qserve.db()
         self.events = []
-        self.choices = []
-        self.pending_post = None
         self.errors = []
+        self.pending_post = None
         self.wmap = {}
         self.latest_pull = None
         self.incarnation = 0
+        self.seq = 0
+        self.batch_disc = []
+        try:
+            gevent.get_hub().exception_stream = io.StringIO()     # handle_client's link kills from the hub: noisy
+        except Exception:                                         # noqa: BLE001
+            pass
         self._new_incarnation()
-        gevent.sleep(0)                     # let the connection greenlets park
 
-    # ------------------------------------------------------------------ plumbing
+    # ------------------------------------------------------------------ server / connections
     @property
     def wq(self):
         return self.db.workq
 
     def _new_incarnation(self):
+        drv = self
         wq = self.db.workq
+        db = self.db
+        inc = self.incarnation
 
-        class Plugin(qs.qserve.QPlugin):
+        class Handler(qs.rpcserver.RequestHandler, qs.qserve.QPlugin):
             workq = wq
-        self.Plugin = Plugin
+
+            def __init__(self, **kw):
+                super().__init__(**kw)
+                self._conn = drv.by_idx[kw["client"][1][1]]
+                self._conn.handler = self
+                self._inc = inc
+
+            def __call__(self, req):
+                return drv._dispatch(self, req, super().__call__)
+
+            def shutdown(self):
+                return drv._on_shutdown(self, super().shutdown)
+
+        Handler.db = db
+        srv = qs.rpcserver.Server.__new__(qs.rpcserver.Server)
+        srv.get_request_handler = Handler
+        srv.is_allowed = lambda ip: True
+        srv.client_count = 0
+        srv.secret = None
+        self.srv = srv
         self.conns = {}
-        for w in self.workers:
-            c = Conn(w)
-            c.plugin = Plugin()
-            c.park = gevent_event.Event()
-            c.token = 1
-            c.greenlet = gevent.spawn(self._idle_body, w, c.token)
-            self.conns[w] = c
-        self.admin = Plugin()
         self.cl = {}
-        for k in self.clients:
-            self.cl[k] = {"plugin": Plugin(), "waiting": 0, "greenlet": None, "token": 0}
+        self.by_idx = {}
+        # requests of one connection are served back to back once its client greenlet runs, so
+        # every request of a batch that must keep its place in the submission order gets a
+        # connection of its own: a pool of admin connections (they hold no state)
+        self.admins = []
+        self.admin_next = 0
+        names = list(self.workers) + ["admin%d" % i for i in range(N_ADMIN)] + list(self.clients)
+        for i, n in enumerate(names):
+            c = Conn(n, i + 1)
+            self.by_idx[c.idx] = c
+            if n in self.workers:
+                self.conns[n] = c
+            elif n.startswith("admin"):
+                self.admins.append(c)
+            else:
+                self.cl[n] = c
+            self._connect(c)
+        self.admin_conn = self.admins[0]
+        # service pseudo-connection for server-internal loops (handletimeouts, watchdog): same two
+        # hops as a request so that it keeps its place in the submission order
+        self.svc_q1 = gevent.queue.Queue()
+        self.svc_q2 = gevent.queue.Queue()
+        self.svc = [gevent.spawn(self._svc_reader, inc), gevent.spawn(self._svc_runner, inc)]
+        for _ in range(3):
+            gevent.sleep(0)                  # let everybody reach their blocking point
+
+    @property
+    def admin(self):
+        return self.admin_conn.handler
+
+    def _connect(self, c):
+        c.sock = FakeSock()
+        c.handler = None               # created by handle_client when the greenlet starts
+        c.state = "idle"
+        c.eof_sent = False
+        c.in_pull = c.in_wait = False
+        c.resumed_ev = None
+        c.disc_recorded = False
+        c.submitted.clear()
+        c.greenlet = qs.rpcserver.ClientGreenlet(self.srv.handle_client, c.sock, ("127.0.0.1", c.idx))
+        c.greenlet.start()
+
+    def _svc_reader(self, inc):
+        while True:
+            item = self.svc_q1.get()
+            self.svc_q2.put(item)
+
+    def _svc_runner(self, inc):
+        while True:
+            seq, op = self.svc_q2.get()
+            if self.incarnation != inc:
+                return
+            try:
+                self._fill()
+                if op["op"] == "tick":
+                    self.clock.t += 1
+                    self.wq.handletimeouts()
+                elif op["op"] == "watchdog":
+                    self.wq.dropdead()
+                elif op["op"] == "connect":
+                    self._connect(self.conns[op["w"]])
+                self._event(dict(op), seq)
+            except Exception as e:           # noqa: BLE001
+                self.errors.append(("svc", op, repr(e)))
 
     def _learn(self):
-        """Map every entry of workq._waiters to the connection that registered it.  rpc_qpull
-        replaces an empty channel list by a fresh [] of its own, so entries are recognised by
-        arrival: pulls are started one at a time and every snapshot happens before the next
-        pull starts, hence at most one entry is unknown - it belongs to the latest pull."""
+        """Map every entry of workq._waiters to the connection that registered it: pulls start one
+        at a time and every snapshot happens before the next pull starts, so at most one entry is
+        unknown - it belongs to the latest pull.  Keyed on the channel-list object, which lives as
+        long as the pop call (also across its internal retry)."""
         for watching, ev in self.wq._waiters:
-            if id(watching) not in self.wmap:      # the list object lives as long as the pop call
+            if id(watching) not in self.wmap:
                 self.wmap[id(watching)] = (self.latest_pull, watching)
 
     def worker_of_ev(self, ev):
@@ -138,9 +260,7 @@ class Driver:
         for q in wq.channel2q.values():
             for j in q:
                 reach[j.serial] = j
-        waiters = {}
-        for w, c in self.conns.items():
-            waiters[w] = {"on": False, "chs": [], "box": 0}
+        waiters = {w: {"on": False, "chs": [], "box": 0} for w in self.conns}
         for watching, ev in wq._waiters:
             w = self.worker_of_ev(ev)
             box = 0
@@ -150,11 +270,11 @@ class Driver:
             waiters[w] = {"on": True, "chs": sorted(watching), "box": box}
         running = {}
         for w, c in self.conns.items():
-            if c.state == "closed":        # handle_client drops the plugin after shutdown()
+            if c.state == "closed" or c.handler is None:      # handle_client drops the handler after shutdown()
                 running[w] = []
                 continue
-            running[w] = [j.serial for j in c.plugin.running_jobs.values()]
-            for j in c.plugin.running_jobs.values():
+            running[w] = [j.serial for j in c.handler.running_jobs.values()]
+            for j in c.handler.running_jobs.values():
                 reach[j.serial] = j
         jobs = []
         for s in range(1, wq.count + 1):
@@ -170,23 +290,15 @@ class Driver:
                 "tmo": int(j.timeout), "info": len(j.info), "ttl": int(j.ttl),
                 "deadline": int(j.deadline or 0), "drop": bool(j.drop),
             })
-        heaps = {}
-        for ch in self.channels:
-            heaps[ch] = sorted(j.serial for j in wq.channel2q.get(ch, []))
+        heaps = {ch: sorted(j.serial for j in wq.channel2q.get(ch, [])) for ch in self.channels}
         stats = {}
         for ch in self.channels:
             st = wq._channel2count.get(ch, {})
             stats[ch] = {k: int(st.get(k, 0)) for k in ("success", "killed", "timeout", "error")}
         return {
-            "count": wq.count,
-            "jobs": jobs,
-            "bound": {i: j.serial for i, j in wq.id2job.items()},
-            "heaps": heaps,
-            "waiters": waiters,
-            "running": running,
-            "stats": stats,
-            "now": self.clock.t,
-            "fwait": {k: v["waiting"] for k, v in self.cl.items()},
+            "count": wq.count, "jobs": jobs, "bound": {i: j.serial for i, j in wq.id2job.items()},
+            "heaps": heaps, "waiters": waiters, "running": running, "stats": stats, "now": self.clock.t,
+            "fwait": {k: c.waiting for k, c in self.cl.items()},
         }
 
     def _fill(self):
@@ -194,182 +306,195 @@ class Driver:
             self.pending_post["post"] = self.snap()
             self.pending_post = None
 
-    def _event(self, ev, defer=False):
+    def _event(self, ev, seq=None, defer=False):
+        ev["_seq"] = seq if seq is not None else self.seq + 0.5
         self.events.append(ev)
         if defer:
             self.pending_post = ev
         else:
             ev["post"] = self.snap()
 
-    # ------------------------------------------------------------------ greenlet bodies
-    def _conn_body(self, w, token, chs):
-        c = self.conns[w]
-        inc = self.incarnation
-        try:
-            ev = {"op": "pull", "w": w, "chs": sorted(chs), "got": 0}
-            self._fill()
-            c.chs_obj = list(chs)
+    # ------------------------------------------------------------------ observation hooks
+    def _dispatch(self, handler, req, call):
+        c = handler._conn
+        if handler._inc != self.incarnation:
+            return call(req)
+        name, kw = req
+        seq, op = c.submitted.popleft() if c.submitted else (None, {"op": name})
+        self._fill()
+        ev = dict(op)
+        if name == "qpull":
+            ev["got"] = 0
             self._learn()
-            self.latest_pull = w
-            self.events.append(ev)
-            self.pending_post = ev          # filled by whoever runs next if we block
-            blocked = {"v": True}
-            n_before = len(self.wq._waiters)
-            ret = c.plugin.rpc_qpull(c.chs_obj)
-            # back here either immediately (job available) or after a wake-up
-            if self.incarnation != inc:
-                return                      # the server was restarted meanwhile: not our world any more
-            if self.pending_post is ev:
-                # returned without blocking
+            self.latest_pull = c.name
+            c.state = "blocked"
+            c.in_pull = True
+            self._event(ev, seq, defer=True)
+            ret = call(req)                  # may block in workq.pop; GreenletExit propagates
+            if handler._inc != self.incarnation:
+                return ret
+            c.in_pull = False
+            if self.pending_post is ev:      # returned without blocking
                 ev["got"] = ret["serial"]
                 ev["post"] = self.snap()
                 self.pending_post = None
+                c.state = "closing" if c.eof_sent else "idle"
             else:
                 self._fill()
-                self._event({"op": "deliver", "k": "value", "w": w, "got": ret["serial"]})
-            if c.token == token and c.state == "blocked":
-                c.state = "idle"
-            c.park.wait()                   # like lineq.get() in handle_client
-        except gevent.GreenletExit:
-            if c.token == token:
-                self._fill()
-                c.plugin.shutdown()         # handle_client: finally: handle_request.shutdown()
-                c.state = "closed"
-                self._event({"op": "deliver", "k": "kill", "w": w})
-        except Exception as e:              # noqa: BLE001
-            self.errors.append(("conn", w, repr(e)))
-
-    def _idle_body(self, w, token):
-        c = self.conns[w]
-        try:
-            c.park.wait()
-        except gevent.GreenletExit:
-            if c.token == token:
-                self._fill()
-                c.plugin.shutdown()
-                c.state = "closed"
-                self._event({"op": "deliver", "k": "kill", "w": w})
-
-    def _connect_body(self, w, token):
-        c = self.conns[w]
-        self._fill()
-        c.plugin = self.Plugin()
-        c.state = "idle"
-        self._event({"op": "connect", "w": w})
-        self._idle_body(w, token)
-
-    def _client_body(self, k, token, jid):
-        cl = self.cl[k]
-        inc = self.incarnation
-        try:
-            self._fill()
-            ev = {"op": "wait", "c": k, "id": jid}
-            wq = self.wq
-            j = wq.id2job.get(jid)
+                dv = {"op": "deliver", "k": "value", "w": c.name, "got": ret["serial"]}
+                if c.eof_sent:
+                    c.resumed_ev = dv        # shutdown follows in this very callback: one step
+                else:
+                    c.state = "idle"
+                    self._event(dv)
+            return ret
+        if name == "qwait":
+            j = self.wq.id2job.get(kw["jobids"][0])
             if j is None:
                 ev["error"] = True
-                self._event(ev)
-                return
+                try:
+                    return call(req)
+                finally:
+                    self._event(ev, seq)
             ev["blocked"] = not j.done
-            cl["waiting"] = 0 if j.done else j.serial
-            self.events.append(ev)
-            self.pending_post = ev
-            ret = cl["plugin"].rpc_qwait([jid])
-            if self.incarnation != inc:
-                return
+            c.waiting = 0 if j.done else j.serial
+            c.in_wait = True
+            self._event(ev, seq, defer=True)
+            ret = call(req)
+            if handler._inc != self.incarnation:
+                return ret
+            c.in_wait = False
             if self.pending_post is ev:
                 ev["post"] = self.snap()
                 self.pending_post = None
             else:
-                cl["waiting"] = 0
+                c.waiting = 0
                 self._fill()
-                self._event({"op": "deliver", "k": "evt", "w": k, "done": bool(ret[0]["done"])})
-        except gevent.GreenletExit:
-            pass
-        except Exception as e:              # noqa: BLE001
-            self.errors.append(("client", k, repr(e)))
-
-    # ------------------------------------------------------------------ operations
-    def _op(self, op):
-        """Runs inside its own greenlet (one per operation of the batch)."""
-        kind = op["op"]
-        wq = self.wq
+                self._event({"op": "deliver", "k": "evt", "w": c.name, "done": bool(ret[0]["done"])})
+            return ret
+        # non-blocking requests
+        n = self.wq.count
         try:
-            self._fill()
-            ev = dict(op)
-            if kind == "add":
-                n = wq.count
-                self.choices = []
-                ev["ret"] = self.admin.rpc_qadd(channel=op["ch"], payload=None, priority=op["prio"], jobid=op["id"],
-                                                timeout=op["tmo"], ttl=op["ttl"])
-                ev["new"] = wq.count > n
-            elif kind == "finish":
-                c = self.conns[op["w"]]
-                err = None if op["err"] == "none" else "boom"
-                try:
-                    c.plugin.rpc_qfinish(op["id"], result=(self.result_hook(op) if err is None else None), error=err)
-                except KeyError:
-                    ev["error"] = True
-            elif kind == "kill":
-                p = self.admin if op["k"] == "admin" else self.conns[op["k"]].plugin
-                p.rpc_qkill([op["id"]])
-            elif kind == "tick":
-                self.clock.t += 1
-                wq.handletimeouts()
-            elif kind == "setinfo":
-                try:
-                    self.admin.rpc_qsetinfo(op["id"], {"k%d" % (len(wq.id2job[op["id"]].info) + 1): 1})
-                except KeyError:
-                    ev["error"] = True
-            elif kind == "drop":
-                self.admin.rpc_qdrop([op["id"]])
-            elif kind == "watchdog":
-                wq.dropdead()
-            elif kind == "stats":
-                st = self.admin.rpc_getstats()
-                ev["ret"] = {"count": st["count"], "numjobs": st["numjobs"],
-                             "busy": {c: int(st["busy"].get(c, 0)) for c in self.channels}}
-            elif kind == "disconnect":
-                c = self.conns[op["w"]]
-                c.state = "closing"
-                c.greenlet.kill(block=False)       # queued FIFO behind the pending callbacks
-            else:
-                raise ValueError(kind)
+            ret = call(req)
+        except KeyError:
+            ev["error"] = True
+            self._event(ev, seq)
+            raise
+        except Exception as e:               # noqa: BLE001
+            self.errors.append(("request", op, repr(e)))
+            self._event(ev, seq)
+            raise
+        if name == "qadd":
+            ev["ret"] = ret
+            ev["new"] = self.wq.count > n
+        elif name == "getstats":
+            ev["ret"] = {"count": ret["count"], "numjobs": ret["numjobs"],
+                         "busy": {ch: int(ret["busy"].get(ch, 0)) for ch in self.channels}}
+        self._event(ev, seq)
+        return ret
+
+    def _on_shutdown(self, handler, call):
+        c = handler._conn
+        if handler._inc != self.incarnation:
+            return                            # the old server's connections died with it
+        self._fill()
+        call()
+        c.state = "closed"
+        if c.name not in self.conns:
+            return
+        if c.resumed_ev is not None:
+            ev, c.resumed_ev = c.resumed_ev, None
             self._event(ev)
-        except Exception as e:              # noqa: BLE001
-            self.errors.append(("op", op, repr(e)))
+        elif c.in_pull:
+            c.in_pull = False
+            self._event({"op": "deliver", "k": "kill", "w": c.name})
+        else:
+            c.disc_recorded = True
+            self._event({"op": "disconnect", "w": c.name}, c.disc_seq)
+
+    # ------------------------------------------------------------------ submitting operations
+    def _send(self, c, seq, op, name, **kw):
+        c.submitted.append((seq, op))
+        c.sock.q.put(json.dumps([name, kw]) + "\n")
+
+    def _admin(self):
+        if self.admin_next >= len(self.admins):
+            raise BatchTooLong()
+        c = self.admins[self.admin_next]
+        self.admin_next += 1
+        return c
 
     def submit(self, op):
-        """Queue one operation of the current batch (runs when the driver next yields)."""
-        kind = op["op"]
-        if kind == "pull":
+        self.seq += 1
+        seq = self.seq
+        k = op["op"]
+        if k == "add":
+            self._send(self._admin(), seq, op, "qadd", channel=op["ch"], priority=op["prio"], jobid=op["id"],
+                       timeout=op["tmo"], ttl=op["ttl"])
+        elif k == "pull":
+            self._send(self.conns[op["w"]], seq, op, "qpull", channels=list(op["chs"]))
+        elif k == "finish":
+            err = None if op["err"] == "none" else "boom"
+            self._send(self.conns[op["w"]], seq, op, "qfinish", jobid=op["id"],
+                       result=(self.result_hook(op) if err is None else None), error=err)
+        elif k == "kill":
+            c = self._admin() if op["k"] == "admin" else self.conns[op["k"]]
+            self._send(c, seq, op, "qkill", jobids=[op["id"]])
+        elif k == "setinfo":
+            self._send(self._admin(), seq, op, "qsetinfo", jobid=op["id"], info={"k%d" % seq: 1})
+        elif k == "drop":
+            self._send(self._admin(), seq, op, "qdrop", jobids=[op["id"]])
+        elif k == "stats":
+            self._send(self._admin(), seq, op, "getstats")
+        elif k == "wait":
+            self._send(self.cl[op["c"]], seq, op, "qwait", jobids=[op["id"]])
+        elif k == "disconnect":
             c = self.conns[op["w"]]
-            c.token += 1
-            c.state = "blocked"             # corrected to idle by the body if it returns at once
-            c.park = gevent_event.Event()
-            c.greenlet = gevent.spawn(self._conn_body, op["w"], c.token, list(op["chs"]))
-        elif kind == "connect":
-            c = self.conns[op["w"]]
-            c.token += 1
-            c.park = gevent_event.Event()
-            c.greenlet = gevent.spawn(self._connect_body, op["w"], c.token)
-        elif kind == "wait":
-            cl = self.cl[op["c"]]
-            cl["token"] += 1
-            cl["greenlet"] = gevent.spawn(self._client_body, op["c"], cl["token"], op["id"])
+            c.eof_sent = True
+            c.disc_seq = seq
+            c.disc_recorded = False
+            c.state = "closing"
+            self.batch_disc.append((seq, c))
+            c.sock.q.put("")                 # EOF
+        elif k in ("tick", "watchdog", "connect"):
+            self.svc_q1.put((seq, op))
         else:
-            gevent.spawn(self._op, op)
+            raise ValueError(k)
 
     def run_batch(self, ops):
+        if sum(1 for o in ops if o["op"] in ("add", "setinfo", "drop", "stats") or o.get("k") == "admin") > len(self.admins):
+            raise BatchTooLong()
+        self.admin_next = 0
+        self.batch_disc = []
+        e0 = len(self.events)
         for op in ops:
             self.submit(op)
         gevent.sleep(0)
+        gevent.sleep(0)
+        # every submitted operation has run (or, for the EOF of a connection blocked in pull, has
+        # been seen by its reader); their wake-ups are still queued
         self._fill()
+        # the EOF of a blocked connection changes nothing observable at its own position: insert
+        # its event where it was submitted, with the state of its predecessor
+        for seq, c in self.batch_disc:
+            if c.disc_recorded:
+                continue
+            evs = self.events
+            pos = e0
+            while pos < len(evs) and evs[pos].get("_seq", 0) < seq:
+                pos += 1
+            post = evs[pos - 1]["post"] if pos > 0 else self.snap()
+            evs.insert(pos, {"op": "disconnect", "w": c.name, "_seq": seq, "post": post})
+            c.disc_recorded = True
+        got = len([e for e in self.events[e0:] if e["op"] != "deliver"])
+        if got != len(ops):
+            self.errors.append(("batch", "submitted %d operations, observed %d events" % (len(ops), got),
+                                [e["op"] for e in self.events[e0:]]))
 
     def drain(self):
         """Let the event loop run until its callback queue is empty (nothing changes any more)."""
         prev = None
-        for _ in range(12):
+        for _ in range(16):
             gevent.sleep(0)
             self._fill()
             cur = (len(self.events), repr(self.snap()))
@@ -378,19 +503,14 @@ class Driver:
             prev = cur
         self._event({"op": "quiet"})
 
+    def _old_greenlets(self):
+        return [c.greenlet for c in list(self.conns.values()) + self.admins + list(self.cl.values())] + self.svc
+
     def restart(self, via_file=None):
         """Stop the server, save, start again from the saved state."""
         self._fill()
         self.incarnation += 1
-        for c in self.conns.values():
-            c.token += 1                     # old greenlets must not run shutdown on the new server
-            if c.greenlet is not None and not c.greenlet.dead:
-                c.greenlet.kill(block=False)
-        for cl in self.cl.values():
-            cl["token"] += 1
-            if cl["greenlet"] is not None and not cl["greenlet"].dead:
-                cl["greenlet"].kill(block=False)
-            cl["waiting"] = 0
+        old = self._old_greenlets()
         if via_file:
             m = qs.qserve.Main.__new__(qs.qserve.Main)
             m.qpath = via_file
@@ -402,20 +522,20 @@ class Driver:
             self.db = m2.db
         else:
             self.db = pickle.loads(pickle.dumps(self.db, 2))
+        for g in old:
+            if g is not None and not g.dead:
+                g.kill(block=False)
         gevent.sleep(0)
         gevent.sleep(0)
+        self.wmap = {}
         self._new_incarnation()
         self._event({"op": "restart"})
 
     def close(self):
-        for c in self.conns.values():
-            c.token += 1
-            if c.greenlet is not None and not c.greenlet.dead:
-                c.greenlet.kill(block=False)
-        for cl in self.cl.values():
-            cl["token"] += 1
-            if cl["greenlet"] is not None and not cl["greenlet"].dead:
-                cl["greenlet"].kill(block=False)
+        self.incarnation += 1
+        for g in self._old_greenlets():
+            if g is not None and not g.dead:
+                g.kill(block=False)
         gevent.sleep(0)
         gevent.sleep(0)
 
